@@ -334,6 +334,8 @@ func (s *State) callResolved(site ssa.Instruction, cc *ssa.CallCommon, fnv Val, 
 		// call through a function value: contract attached to the struct field / parameter it was read from
 		if key := eng.funcValueKey(cc.Value); key != "" {
 			if con, ok := eng.contracts.Funcs[key]; ok {
+				s.selfFn = fnv
+				s.callSiteAssertsNamed(site, key, con.Params, args)
 				s.applyContract(site, key, con, nil, args, sig, k)
 				return
 			}
@@ -441,6 +443,9 @@ func (s *State) applyContract(site ssa.Instruction, key string, con *Contract, c
 		off := len(args) - len(names)
 		if con.Kind == "iface" {
 			vars["recv"] = args[0]
+		}
+		if con.Kind == "field" {
+			vars["self"] = Val{T: intT, S: s.selfFn.S}
 		}
 		for i, n := range names {
 			if off+i >= 0 && off+i < len(args) {
@@ -754,6 +759,9 @@ func (c *FnCtx) loopMods(h *ssa.BasicBlock) ([]string, bool) {
 	all := false
 	c.loopUnkPkgs = nil
 	c.loopUnkFuncArg = false
+	c.loopCellAllocs = map[string][]*ssa.Alloc{}
+	c.loopCellGeneric = map[string]bool{}
+	topLevelScan := true
 	unk := func(pkgs []*types.Package, cc *ssa.CallCommon) {
 		all = true
 		c.loopUnkPkgs = append(c.loopUnkPkgs, pkgs...)
@@ -814,12 +822,33 @@ func (c *FnCtx) loopMods(h *ssa.BasicBlock) ([]string, bool) {
 	scanInstr = func(in ssa.Instruction) {
 		switch x := in.(type) {
 		case *ssa.Store:
+			if al, ok := x.Addr.(*ssa.Alloc); ok && topLevelScan {
+				if pt := derefType(al.Type()); pt != nil && kindOf(pt) != kStruct && kindOf(pt) != kArray {
+					key := "cell|" + typeKey(pt)
+					c.loopCellAllocs[key] = append(c.loopCellAllocs[key], al)
+					set[key] = true
+					return
+				}
+			}
+			if pt := derefType(x.Addr.Type()); pt != nil && kindOf(pt) != kStruct && kindOf(pt) != kArray {
+				if _, isFA := x.Addr.(*ssa.FieldAddr); !isFA {
+					if _, isIA := x.Addr.(*ssa.IndexAddr); !isIA {
+						c.loopCellGeneric["cell|"+typeKey(pt)] = true
+					}
+				}
+			}
 			addrKeys(x.Addr)
 		case *ssa.MapUpdate:
 			set["mapdom|"+typeKey(x.Map.Type().Underlying())] = true
 			set["mapval|"+typeKey(x.Map.Type().Underlying())] = true
 		case *ssa.Go:
-			// goroutine bodies run "later": their effects are applied at the join (C08)
+			if c.eng.hasWait[x.Parent()] {
+				if mc, ok := x.Call.Value.(*ssa.MakeClosure); ok {
+					scanFn(mc.Fn.(*ssa.Function))
+				} else {
+					all = true
+				}
+			}
 		case *ssa.Defer:
 			all = true
 		case ssa.CallInstruction:
@@ -908,11 +937,14 @@ func (c *FnCtx) loopMods(h *ssa.BasicBlock) ([]string, bool) {
 			return
 		}
 		seen[fn] = true
+		saved := topLevelScan
+		topLevelScan = false
 		for _, b := range fn.Blocks {
 			for _, in := range b.Instrs {
 				scanInstr(in)
 			}
 		}
+		topLevelScan = saved
 	}
 	for b := range c.loopBody[h] {
 		for _, in := range b.Instrs {
@@ -1019,6 +1051,29 @@ func (s *State) havocPrefixFramed(prefix string) {
 		if srt == "" {
 			continue
 		}
+		if strings.HasPrefix(t.key, "cell|") {
+			kp := t.key
+			if i := strings.IndexAny(t.key[5:], "."); i >= 0 {
+				kp = t.key[:5+i]
+			}
+			if allocs, ok := c.loopCellAllocs[kp]; ok && !c.loopCellGeneric[kp] {
+				// every store of the loop to a cell of this type goes through one of these allocations:
+				// all other cells that exist at loop entry keep their value
+				nr := c.freshConst("hf", srt)
+				s.heap[t.key] = nr
+				r := fmt.Sprintf("r!%d", c.fresh)
+				c.fresh++
+				var excl []string
+				for _, al := range allocs {
+					if v, ok := s.env[al]; ok && v.S != "" {
+						excl = append(excl, eq(r, v.S))
+					}
+				}
+				cond := and(app("<", r, s.alloc), not(or(excl...)))
+				s.assume(fmt.Sprintf("(forall ((%s Int)) (! (=> %s (= (select %s %s) (select %s %s))) :pattern ((select %s %s))))", r, cond, nr, r, t.old, r, nr, r))
+				continue
+			}
+		}
 		var kind, kp string
 		switch {
 		case strings.HasPrefix(t.key, "fld|"):
@@ -1069,18 +1124,36 @@ func (c *FnCtx) sortOfTerm(name string) string {
 
 // callSiteAsserts discharges the `callsite` clauses of the function under verification for this call.
 func (s *State) callSiteAsserts(site ssa.Instruction, key string, callee *ssa.Function, args []Val) {
+	var names []string
+	for _, p := range callee.Params {
+		names = append(names, p.Name())
+	}
+	s.callSiteAssertsNamed(site, key, names, args)
+}
+
+func (s *State) callSiteAssertsNamed(site ssa.Instruction, key string, names []string, args []Val) {
 	c := s.c
-	if c.con == nil || len(s.fnStack) != 1 {
+	if c.con == nil {
 		return
+	}
+	// the call must be in the function itself or in a closure nested in it
+	for _, f := range s.fnStack {
+		if topFn(f) != topFn(c.fn) {
+			return
+		}
 	}
 	for i, ca := range c.con.CallSites {
 		if ca.Callee != key {
 			continue
 		}
 		x := s.invCtx()
-		for j, p := range callee.Params {
-			if j < len(args) {
-				x.vars[p.Name()] = args[j]
+		for name, v := range c.paramVars(s) {
+			x.vars["$"+name] = v
+		}
+		off := len(args) - len(names)
+		for j, n := range names {
+			if off+j >= 0 && off+j < len(args) {
+				x.vars[n] = args[off+j]
 			}
 		}
 		v := x.eval(ca.Clause.Expr)
